@@ -219,6 +219,10 @@ def handleEvent (d : DS) (toks : List String) : DS × String :=
         if k = "err" then ok { d with st := step env d.st (.err w) }
         else match k.toNat? with
           | none => fail d "bad ret line"
+          | some 0 =>
+            -- a reply without entries (outside the get-entries contract, but harmless once): the code hands the empty batch on
+            -- and asks again; in the model it is the identity step `respRaw w 0` (Props/C16 `empty_answers_livelock`)
+            ok { d with st := step env d.st (.respRaw w 0) }
           | some k =>
             if !enabled d.st (.resp w k) then fail d s!"ret {s} {e} {k}: outside the get-entries contract"
             else
@@ -234,7 +238,8 @@ def handleEvent (d : DS) (toks : List String) : DS × String :=
   | "cb" :: s :: k :: _ =>
     match s.toNat?, k.toNat? with
     | some s, some k =>
-      if d.awaiting.contains (s, k) then
+      if k = 0 then (match d.bad with | some _ => (d, "skip") | none => (d, "0"))
+      else if d.awaiting.contains (s, k) then
         let d' := { d with awaiting := d.awaiting.erase (s, k) }
         match d'.bad with
         | some _ => (d', "skip")
